@@ -36,6 +36,9 @@ impl VShimU16ToU8 for u16 { open spec fn v(self) -> int { self as int }
 pub trait VShimUsizeToU16 { spec fn v(self) -> int; fn vshim_try_into_unwrap(self) -> (r: u16) requires self.v() <= 65535, ensures r as int == self.v(); }
 impl VShimUsizeToU16 for usize { open spec fn v(self) -> int { self as int }
     #[verifier::external_body] fn vshim_try_into_unwrap(self) -> (r: u16) { self.try_into().unwrap() } }
+pub trait VShimIntoVec { spec fn sv(&self) -> Seq<u8>; fn vshim_into_vec(&self) -> (r: Vec<u8>) ensures r@ == self.sv(); }
+impl VShimIntoVec for [u8] { open spec fn sv(&self) -> Seq<u8> { self@ }
+    #[verifier::external_body] fn vshim_into_vec(&self) -> (r: Vec<u8>) { self.into() } }
 pub uninterp spec fn spec_vec_capacity<T, A: std::alloc::Allocator>(v: &Vec<T, A>) -> usize;
 pub assume_specification<T, A: std::alloc::Allocator> [std::vec::Vec::<T, A>::capacity] (v: &std::vec::Vec<T, A>) -> (r: usize)
    ensures r == spec_vec_capacity(v), r >= v.len();
